@@ -144,6 +144,29 @@ def chainPanics (h : Val → Nat) : List Cmd → List Cmd → List Table → Boo
       | _ => false
     here || chainPanics h (pre ++ [c]) rest parts
 
+def insertStr (c : String) : List String → List String
+  | [] => [c]
+  | d :: r => if c < d then c :: d :: r else d :: insertStr c r
+
+/-- what the processor remembers after the run (single command; the harness reads the same from the real
+processor through the overlay hook VerifC06State) -/
+def stateOf (h : Val → Nat) (c : Cmd) (parts : List Table) : String :=
+  match c with
+  | .head n => s!"sent={runState (headProc n) parts}"
+  | .tail n =>
+    let s := runState (tailProc n) parts
+    let fin := match s.fin with | none => "-" | some f => toString f.length
+    s!"fin={fin},eof={if s.eof then 1 else 0}"
+  | .scroll n => s!"rem={runState (scrollProc n) parts}"
+  | .dedup o =>
+    let s := runState (dedupProc h o) parts
+    s!"keys={s.length},sum={(s.map (·.2)).foldl (· + ·) 0}"
+  | .fillnull v [] =>
+    let s := runState (fillAllProc v) parts
+    let cols := s.known.foldl (fun acc c => insertStr c acc) []
+    s!"known={String.intercalate "+" cols},second={if s.second then 1 else 0}"
+  | _ => "-"
+
 def pipe (args : List String) : String :=
   match args with
   | [chain, d, e, p, r] =>
@@ -153,7 +176,10 @@ def pipe (args : List String) : String :=
       let parts := padBatches dense t (split sizes t)
       let univ := ((t.flatMap (fun r => r.map (·.2))) ++ cs.flatMap cmdVals).eraseDups
       let h := oneHot univ
-      if chainPanics h [] cs parts then "panic" else showTable (runChain h cs parts)
+      if chainPanics h [] cs parts then "panic"
+      else
+        let st := match cs with | [c] => " st=" ++ stateOf h c parts | _ => ""
+        showTable (runChain h cs parts) ++ st
     | _, _, _, _, _ => "bad-op"
   | _ => "bad-op"
 
